@@ -210,6 +210,10 @@ PPL::Grid_Generator::ascii_load(std::istream& s) {
   if (!expr.ascii_load(s)) {
     return false;
   }
+  // There always is the parameter divisor column.
+  if (expr.space_dimension() == 0) {
+    return false;
+  }
 
   std::string str;
 
